@@ -7,15 +7,15 @@ bounds, outside = meta["bounds"], meta["outside"]
 props = ["C01", "C02", "C03", "C04", "C05", "C06", "C07", "C10", "C12", "C13", "C16"]
 titles = {
     "C01": "every legal operand tuple of every mnemonic assembles to the words of an independent ISA reference (and the reference decodes back to what was written)",
-    "C02": "per-item agreement of pass-1 size accounting and pass-2 emission: instruction length and data length lemmas only",
-    "C03": "relative jumps/branches: build succeeds iff the displacement fits, field equals target-(address+1)",
+    "C02": "per-item agreement of pass-1 size accounting and pass-2 emission (length lemmas), .org / segment directives, and the real pass 1 + pass 2 on short programs: label = emitted position, .org gaps zero-filled, running offsets",
+    "C03": "relative jumps/branches: build succeeds iff the displacement fits, field equals target-(address+1); pass 2 installs pc = address of the item being emitted",
     "C04": "arbitrary operand vectors: accepted only if the ISA can encode them, and then encoded as the reference says; never a panic",
     "C05": "Expr::run on every operator/function node over 64-bit operands equals an independent reference evaluator",
-    "C06": "data directive conversion layer: widths, byte order, ranges, string rules",
+    "C06": "data directive conversion layer (widths, byte order, ranges, string rules) and the real pass 1 + pass 2 on short programs: flash padding of odd .db lines, eeprom unpadded, .byte n, wrong-segment rejection",
     "C07": "records handed to the HEX library reproduce the image byte for byte at the right addresses",
-    "C10": "symbol tables: case-insensitive lookup, lookup order, unbound names, alias == register",
-    "C12": "capacity comparisons and reported sizes for every device record (symbolic figures)",
-    "C13": "device gate function vs the feature-flag documentation for every mnemonic",
+    "C10": "symbol tables (case-insensitive lookup, lookup order, unbound names, alias == register) and the real pass 1 + pass 2 on short programs: .set / .def / .undef sequencing in any letter case, duplicate labels",
+    "C12": "capacity comparisons and reported sizes for every device record (symbolic figures); RAM usage = extent of the data segment through the real pass 1 on short programs",
+    "C13": "device gate (mnemonic and operand form) vs the feature-flag documentation for every mnemonic, and the gate as consulted by the real pass 2",
     "C16": "directive handlers and every encoded unit return a value or an error: no panic, bounded recursion",
 }
 checks = []
